@@ -457,6 +457,46 @@ Fixpoint insert_sorted (s : bstr) (l : list bstr) : list bstr :=
 Definition ir_label_names (r : ireader) : list bstr :=
   fold_right insert_sorted [] (filter (fun n => match n with [] => false | _ => true end) (po_names [] (ir_po r))).
 
+(* Decoder.LabelNamesOffsetsFor: k := d.Uvarint(); for i := range k { offsets[i] = uint32(d.Uvarint());
+   _ = d.Uvarint(); if d.Err() != nil { return err } } *)
+Fixpoint dec_name_refs (fuel : nat) (k : Z) (bs : list N) : rres (list N) :=
+  if (k <=? 0)%Z then ROk [] else
+  match fuel with
+  | O => RErr RFuel
+  | S f =>
+      match (lno <- d_uvarint32 ;; _ <- d_uvarint64 ;; dret lno)%dec bs with
+      | Err e => lift (Err e)
+      | Ok (lno, r) => (t <-- dec_name_refs f (k - 1) r ;; ROk (lno :: t))%rres
+      end
+  end.
+
+Fixpoint names_of_refs (syms : list bstr) (refs : list N) (acc : list bstr) : rres (list bstr) :=
+  match refs with
+  | [] => ROk acc
+  | o :: r => (s <-- lookup_sym syms o ;;
+               names_of_refs syms r (if bs_mem s acc then acc else insert_sorted s acc))%rres
+  end.
+
+(* Reader.LabelNamesFor(postings): `for postings.Next() { ... }` over the series ids, then the
+   distinct names, sorted.  The iterator's error is NEVER consulted (there is no postings.Err()
+   call in the function): a postings iterator that fails — e.g. the lazily reported checksum
+   error of PostingsForLabelMatching — is indistinguishable from one that is exhausted.  The
+   argument is therefore (ids delivered before the failure, error or not). *)
+Definition label_names_for (r : ireader) (delivered : list N) (failed : option rerr) : rres (list bstr) :=
+  (refs <-- (fix go (ids : list N) : rres (list N) :=
+               match ids with
+               | [] => ROk []
+               | id :: rest =>
+                   (b <-- decbuf_uvarint_at (ir_bytes r) (id * 16) ;;
+                    match d_uvarint_int b with
+                    | Err e => lift (Err e)
+                    | Ok (k, b') =>
+                        (l <-- dec_name_refs (S (length b')) k b' ;;
+                         t <-- go rest ;; ROk (l ++ t))%rres
+                    end)%rres
+               end) delivered ;;
+   names_of_refs (ir_syms r) refs [])%rres.
+
 (* ================================================================ chunk segments *)
 (* Writer.writeChunks: uvarint(len(data)) | enc | data | crc32(enc|data) *)
 Definition enc_chunk_record (enc : N) (data : list N) : list N :=
